@@ -219,7 +219,7 @@ func runT[T constraints.Float](op string, t *tokens) string {
 	return "R " + fmtPoly(r)
 }
 
-type area struct{ general bool }
+type area struct{ kind int }
 
 func (area) Run(line string) (out string) {
 	defer func() {
@@ -257,14 +257,17 @@ func (area) Run(line string) (out string) {
 
 func (a area) Gen(r *hx.Rng, n int, tier string, emit func(string)) {
 	for i := 0; i < n; i++ {
-		if a.general {
+		switch a.kind {
+		case 1:
 			emit(genGeneral(r.Fork()))
-		} else {
+		case 2:
+			emit(genDegenerate(r.Fork()))
+		default:
 			emit(genLattice(r.Fork()))
 		}
 	}
 }
 
 func main() {
-	hx.Main(map[string]hx.Area{"lattice": area{general: false}, "general": area{general: true}})
+	hx.Main(map[string]hx.Area{"lattice": area{kind: 0}, "general": area{kind: 1}, "degenerate": area{kind: 2}})
 }
